@@ -14,6 +14,7 @@ import (
 	"sync"
 	"sync/atomic"
 	"testing"
+	"time"
 
 	"github.com/la5nta/wl2k-go/transport"
 	"pgregory.net/rapid"
@@ -23,7 +24,7 @@ import (
 
 func TestMain(m *testing.M) {
 	harness.Property("C19",
-		"families: component (a tuple of scheme from {ax25, ax25+agwpe, ardop, telnet, serial-tnc, x-y.z1}; optional non-empty user and optional password, both any UTF-8 text, percent-encoded byte by byte outside [A-Za-z0-9._~-]; host empty / name / name:port / [v6]:port over [A-Za-z0-9._-] in mixed case; 0..8 digis and a target over [A-Za-z0-9-]{1,9} in mixed case; 0..3 query parameters with keys [a-z_]{1,8} other than 'host' and arbitrary UTF-8 values percent-encoded the same way; optional non-empty host= parameter at any position) rendered as scheme://[user[:password]@]host/digi.../target[?query], then parsed and - if accepted - dialled with a recording stub registered (or not) for the scheme; raw (arbitrary strings and byte strings); mutated (1..3 byte edits/truncations of a rendered URL with URL-special and control bytes); dispatch (sequences of 1..14 register/unregister/dial calls on 3 schemes against a map model); registry (2..6 goroutines x 1..16 register/unregister/dial calls on 3 schemes with generated yield pacing, binary built with -race). Non-trivial: component cases with >= 1 digi, userinfo or query; raw/mutated strings that net/url accepts (ParseURL's own logic ran); dispatch cases with >= 1 dial; registry cases where two different goroutines dial and write the same scheme. Distinct by hash(raw string, dial mode) / hash(op lists).",
+		"families: component (a tuple of scheme from {ax25, ax25+agwpe, ardop, telnet, serial-tnc, x-y.z1}; optional non-empty user and optional password, both any UTF-8 text, percent-encoded byte by byte outside [A-Za-z0-9._~-]; host empty / name / name:port / [v6]:port over [A-Za-z0-9._-] in mixed case; 0..8 digis and a target over [A-Za-z0-9-]{1,9} in mixed case; 0..3 query parameters with keys [a-z_]{1,8} other than 'host' and arbitrary UTF-8 values percent-encoded the same way; optional non-empty host= parameter at any position) rendered as scheme://[user[:password]@]host/digi.../target[?query], then parsed and - if accepted - dialled with a recording stub registered (or not) for the scheme; raw (arbitrary strings and byte strings); mutated (1..3 byte edits/truncations of a rendered URL with URL-special and control bytes); dispatch (sequences of 1..14 register/unregister/dial calls on 3 schemes against a map model); registry (2..6 goroutines x 1..16 register/unregister/dial calls on 3 schemes with generated yield pacing, binary built with -race); inflight (1..8 register/unregister/dial calls made while a dial of a fourth scheme is in progress, from a second goroutine or from inside that dialer, against the map model; every call must return while the first dial is held). Non-trivial: component cases with >= 1 digi, userinfo or query; raw/mutated strings that net/url accepts (ParseURL's own logic ran); dispatch cases with >= 1 dial; registry cases where two different goroutines dial and write the same scheme; every inflight case. Distinct by hash(raw string, dial mode) / hash(op lists).",
 		"the component domain is restricted to characters whose treatment by net/url is documented and unambiguous: schemes lower case (net/url lower-cases schemes), hosts without escapes, zones or empty ports (net/url keeps the host's case), user/password/query values fully percent-encoded (net/url decodes %XX in all three), no fragment, no empty path segment",
 		"when a tuple has both a target shorter than 3 characters and digis on ardop/telnet, either refusal is accepted; whether a URL value accompanies ErrDigisUnsupported is not constrained; whether the host= parameter itself stays in Params is not constrained",
 		"registry oracle: operations are stamped with a shared atomic counter before the call and after the return; a dial result must be explainable by a registration (or unregistration/initial state) that began before the dial returned and was not certainly overwritten before the dial began - a necessary condition of linearisability that a mutex-protected map always meets; pacing only influences which interleavings are seen, never the verdict",
@@ -79,6 +80,10 @@ type Case struct {
 	Comp   *Comp  `json:"comp,omitempty"`
 	Ops    []Op   `json:"ops,omitempty"`
 	Conc   [][]Op `json:"conc,omitempty"`
+	// inflight family: Ops run while a dial of another scheme is in progress - from a second goroutine
+	// (Reentrant=false: the dialer blocks until the ops are through) or from inside the dialer itself
+	// (Reentrant=true: a wrapper/relay scheme whose dialer uses the registry).
+	Reentrant bool `json:"reentrant,omitempty"`
 }
 
 var (
@@ -444,6 +449,71 @@ func judgeRaw(c Case, o *outcome) (sig, msg string) {
 func judgeDispatch(c Case, o *outcome) (sig, msg string) {
 	clearRegistry()
 	defer clearRegistry()
+	return dispatchOps(c)
+}
+
+// blockScheme is the scheme whose dial is in progress in the inflight family (not one of regSchemes).
+const blockScheme = "serial-tnc"
+
+type inflightStub struct {
+	entered chan struct{}
+	inside  func() // runs inside the dial
+}
+
+func (s inflightStub) DialURLContext(ctx context.Context, u *transport.URL) (net.Conn, error) {
+	close(s.entered)
+	s.inside()
+	return answer(7000)
+}
+
+// judgeInflight: a dial lasts (minutes, on a radio link). While it is in progress every other registry call
+// - a dial of an unregistered scheme (must report ErrMissingDialer), register, unregister, a dial of another
+// scheme - must still be dispatched/answered according to the map model, whether it comes from another
+// goroutine or from the dialer itself. A call that does not return while the first dial is held is a
+// violation ("dialling dispatches ... or reports that none is registered", over concurrent calls); the
+// budget is 30 s of scheduled time for calls that take microseconds.
+func judgeInflight(c Case, o *outcome) (sig, msg string) {
+	clearRegistry()
+	entered, release, done := make(chan struct{}), make(chan struct{}), make(chan int, 1)
+	var isig, imsg string
+	inside := func() { <-release }
+	if c.Reentrant {
+		inside = func() { isig, imsg = dispatchOps(c) }
+	}
+	transport.RegisterContextDialer(blockScheme, inflightStub{entered, inside})
+	go func() {
+		conn, err := transport.DialURL(&transport.URL{Scheme: blockScheme, Target: "N0CALL"})
+		done <- resultID(conn, err)
+	}()
+	got := -99
+	hung, _ := harness.Watch(30*time.Second, func() {
+		<-entered
+		if !c.Reentrant {
+			isig, imsg = dispatchOps(c)
+			close(release)
+		}
+		got = <-done
+	})
+	if hung {
+		who := "a second goroutine"
+		if c.Reentrant {
+			who = "the dialer itself (wrapper scheme)"
+		}
+		harness.Record("registry-call-blocked-by-inflight-dial", c, fmt.Sprintf("while a dial of %q was in progress, %s made the registry calls %+v; they did not all return within 30 s of scheduled time (the registry lock is held across the dial?)", blockScheme, who, c.Ops))
+		harness.ExitHung() // the registry may be locked for good: no further case can run in this process
+	}
+	transport.UnregisterDialer(blockScheme)
+	clearRegistry()
+	if isig != "" {
+		return isig, "during an in-flight dial: " + imsg
+	}
+	if got != 7000 {
+		return "dispatch-wrong-dialer", fmt.Sprintf("the in-flight dial of %q returned the result of %d, want its own dialer's (7000)", blockScheme, got)
+	}
+	return "", ""
+}
+
+func dispatchOps(c Case) (sig, msg string) {
 	rec := &recorder{}
 	model := map[string]int{}
 	token := &struct{ int }{9}
@@ -637,6 +707,8 @@ func run(c Case) (sig, msg string, o outcome) {
 			sig, msg = judgeDispatch(c, &o)
 		case "registry":
 			sig, msg = judgeRegistry(c, &o)
+		case "inflight":
+			sig, msg = judgeInflight(c, &o)
 		}
 	})
 	if psig != "" {
@@ -780,7 +852,11 @@ func mutate(t *rapid.T, b []byte) []byte {
 
 func genCase(t *rapid.T) Case {
 	var c Case
-	switch k := rapid.IntRange(0, 19).Draw(t, "family"); {
+	switch k := rapid.IntRange(0, 20).Draw(t, "family"); {
+	case k == 20:
+		c.Family = "inflight"
+		c.Ops = genOps(t, "op", 8, false)
+		c.Reentrant = rapid.Bool().Draw(t, "reentrant")
 	case k < 10:
 		c.Family = "component"
 		c.Comp = genComp(t)
@@ -864,6 +940,14 @@ func account(c Case, o outcome) {
 		if o.parsedByURL {
 			harness.NonTrivial(harness.Hash(c.Raw))
 			harness.Label("nontrivial")
+		}
+	case "inflight":
+		harness.NonTrivial(harness.Hash("inflight", c.Reentrant, fmt.Sprint(c.Ops)))
+		harness.Label("nontrivial")
+		if c.Reentrant {
+			harness.Label("inflight:calls-from-inside-the-dialer")
+		} else {
+			harness.Label("inflight:calls-from-a-second-goroutine")
 		}
 	case "dispatch":
 		for _, op := range c.Ops {
